@@ -146,14 +146,14 @@ ADDENDA = {
     'C09': ('imported activity traversal rule restricted to parameter fields (C08)', ''),
     'C10': ('imported binding rules of instantiate (C09: IFACE-BIND, IFACE-INST); guard analysis of every caching call of the unconverted path: remembered decisions depend on (function, options) only; imported option equality rules (C20)', ''),
     'C11': ('case-wise evaluation of QN.support_set (HYG-SUPPORT); no removal from scope sets (HYG-SCOPE-GROWS); the root-skipping lambda search is handed the function node', ''),
-    'C13': ('first-match-over-the-full-MRO rule for the defining class; imported negative-cache (C10) and status-stack rules (C16)', ''),
+    'C13': ('path-wise evaluation of the warning calls of the fallback over failure class / inspection support / negative cache; path-wise values of the positional arguments handed to the converted function; first-match-over-the-full-MRO rule for the defining class; imported negative-cache (C10) and status-stack rules (C16)', ''),
     'C14': ('namespace of eval / locals collected from every frame of the function (all-locals); raw-source scan of the run-time library for scope-named locals; expansion of the arguments completing zero-argument super() to the frame\'s __class__ cell and first argument; imported policy-chain rules (C13)', ''),
     'C15': ('same reaching definition for the tokenised text and the text whose lines are paired (paired-lines-of-one-text); module-state rule over every function on the recovery path (SRC-NOSTATE); compiled-pattern substitutions count as context-free edits', ''),
     'C16': ('the wrapper is returned on every path of the status decorators; imported cache-key rule (C10): user-requested and recursive conversions are cached apart', ''),
-    'C17': ('kinds that force their children to Load; encoding of the module file; provenance of Literal values (TREE-LITERAL); no-__wrapped__ rule on the chain that creates the loaded function; return-case analysis of every statement handler of the tree transformers and attribute-store tracking of shortened user blocks (TREE-NONEMPTY)',
+    'C17': ('converter handlers of ctx-bearing node kinds replace the node only under a Load test (replaces-loads-only); kinds that force their children to Load; encoding of the module file; provenance of Literal values (TREE-LITERAL); no-__wrapped__ rule on the chain that creates the loaded function; return-case analysis of every statement handler of the tree transformers and attribute-store tracking of shortened user blocks (TREE-NONEMPTY)',
             ' No generated compound statement has an empty statement list: statement handlers never delete a statement, and a shortened user block embedded as a whole body gets a pass.'),
     'C18': ('path condition of the replacement step excludes Store / Del contexts, slices and tuples holding a slice (ANF-TARGET); with-items named from their own loop variable; the edge-pattern match as a formula over its six tests; wrapper kinds hand (parent, field) on; the pending list is not drained before the while rejection test; imported clean-copy rules of the template machinery (C17)', ''),
-    'C19': ('totality of the state equality behind the change flag; dropped keys are qualified names; value-type check of the type map; imported CFG rules (C05) and parameter / traversal rules (C08)', ''),
+    'C19': ('abstract state carries the symbols of unknown type: dropped symbols are marked, the join unites the marks and drops marked symbols, copy / equality cover them, stale annotations are deleted (TI-UNKNOWN); totality of the state equality behind the change flag; dropped keys are qualified names; value-type check of the type map; imported CFG rules (C05) and parameter / traversal rules (C08)', ''),
     'C20': ('reaching-definition check that the rendered feature collection is the unmodified parameter; balanced state stack of the functions pass (OPT-FRAME)', ''),
 }
 THOROUGH = (' Thorough tier: the same rules, re-evaluated on three behaviour-preserving twins of the current tree (re-printed; locals renamed; methods reordered) whose verdict must agree, '
